@@ -52,18 +52,27 @@ def native_replay(snap, g: Group, inputs, workdir):
     """build the harness natively against the same snapshot (gcc, ASan+UBSan) and run it on the inputs"""
     os.makedirs(workdir, exist_ok=True)
     d = snap.cfg_dir(g.config)
-    tus = g.native_tus if g.native_tus is not None else g.tus
-    extra_from_tus = [f for t in tus for f in t.split("|")[1:]]
-    tus = [t.split("|")[0] for t in tus]
-    srcs = [t if t.startswith("/") else os.path.join(d, "m4ri", t + ".c") for t in tus if t != "@libm"]
     defs = ["-D%s=%s" % (k, v) if v is not None else "-D%s" % k for k, v in g.defines.items()]
     exe = os.path.join(workdir, "replay.bin")
-    cmd = (["gcc", "-std=gnu11", "-w", "-g", "-O1", "-fsanitize=address,undefined", "-fno-sanitize-recover=undefined", "-fno-omit-frame-pointer",
+    base = ["gcc", "-std=gnu11", "-w", "-g", "-O1", "-fsanitize=address,undefined", "-fno-sanitize-recover=undefined", "-fno-omit-frame-pointer",
             "-DVP_NATIVE", "-DHAVE_CONFIG_H", "-msse2",
             "-D__CPROVER_assigns(...)=", "-D__CPROVER_loop_invariant(...)=", "-D__CPROVER_decreases(...)=", "-D__CPROVER_assert(...)=((void)0)",
             "-I" + d, "-I" + os.path.join(d, "m4ri"), "-I" + os.path.join(VERIF, "contracts"), "-I" + os.path.join(VERIF, "harness"),
             "-I" + os.path.join(VERIF, "stubs")]
-           + defs + g.extra_cflags + [os.path.join(VERIF, "harness", g.harness)] + srcs + [os.path.join(VERIF, "lib", "native_rt.c"), "-o", exe, "-lm", "-lpng"])
+    # library translation units are compiled WITHOUT the harness's shape macros (they are the real code), each with its own extra flags
+    objs = []
+    raw_tus = g.native_tus if g.native_tus is not None else g.tus
+    for t in raw_tus:
+        name = t.split("|")[0]
+        if name == "@libm":
+            continue
+        src = name if name.startswith("/") else os.path.join(d, "m4ri", name + ".c")
+        obj = os.path.join(workdir, os.path.basename(src)[:-2] + ".o")
+        rc, so, se, dt, to = core._run(base + t.split("|")[1:] + ["-c", src, "-o", obj], timeout=300)
+        if rc != 0:
+            return {"outcome": "build-failed", "output": (se or so)[-3000:], "cmd": "gcc -c " + src}
+        objs.append(obj)
+    cmd = base + defs + g.extra_cflags + [os.path.join(VERIF, "harness", g.harness)] + objs + [os.path.join(VERIF, "lib", "native_rt.c"), "-o", exe, "-lm", "-lpng"]
     rc, so, se, dt, to = core._run(cmd, timeout=300)
     if rc != 0:
         return {"outcome": "build-failed", "output": (se or so)[-3000:], "cmd": " ".join(cmd)}
